@@ -53,6 +53,7 @@ type oracleIndex struct {
 	memberChange        int
 	maxIndexes          int
 	checkedAfterFailure int
+	reopens             int
 }
 
 func indexMap(cat *lungo.Catalog) (map[string]map[string]idxInfo, map[string]bool) {
@@ -137,6 +138,14 @@ func (o *oracleIndex) after(r *hRun, step, res bson.D) error {
 	}
 	// ---- management clauses
 	switch op {
+	case "reopen", "age":
+		// reloading changes no definition (what the reloaded indexes hold
+		// is checked below like after any other step)
+		if a, b := indexMapString(o.pre), indexMapString(post); a != b {
+			return fmt.Errorf("closing and reopening the database changed the index definitions:\n%s->\n%s", a, b)
+		}
+		o.reopens++
+		r.x.Class("reopened")
 	case "createIndex":
 		keys := asD(getD(step, "keys"))
 		name := asS(getD(step, "name"))
